@@ -116,7 +116,53 @@ pub fn big_unarmor_probe(rep: &mut Report, pid: &str, n: usize, judge_value: boo
 /// boundary bytes around the two alphabet ranges plus extremes
 pub const EDGE_INVALID: [u8; 10] = [47, 88, 95, 120, 0, 255, b',', b'*', 0x80, b' '];
 
+/// Concurrent first use: the first `unarmor` calls of this process are made by 16 threads released
+/// together (a decoder that builds a table or cache on first use must not hand out half-built
+/// state). Every process of the check - 16 shards x builds - is one attempt.
+fn concurrent_first_use(rep: &mut Report) {
+    use std::sync::atomic::{AtomicUsize, Ordering};
+    use std::sync::Arc;
+    const N: usize = 16;
+    let gate = Arc::new(AtomicUsize::new(0));
+    let valid: Vec<u8> = (0..64).map(|i| armor::ALPHABET[(i * 7 + 63) % 64]).collect();
+    let mut invalid = valid.clone();
+    invalid[40] = b'~';
+    let want = unarmor_ref(&valid, 0);
+    let handles: Vec<_> = (0..N)
+        .map(|_| {
+            let gate = gate.clone();
+            let (valid, invalid) = (valid.clone(), invalid.clone());
+            std::thread::spawn(move || {
+                gate.fetch_add(1, Ordering::AcqRel);
+                while gate.load(Ordering::Acquire) < N {
+                    std::hint::spin_loop();
+                }
+                let a = std::panic::catch_unwind(|| ais::messages::unarmor(&valid, 0).ok().map(|v| v.to_vec()));
+                let b = std::panic::catch_unwind(|| ais::messages::unarmor(&invalid, 0).is_ok());
+                (a.ok(), b.ok())
+            })
+        })
+        .collect();
+    for (ti, h) in handles.into_iter().enumerate() {
+        rep.eval();
+        match h.join() {
+            Ok((Some(a), Some(b))) => {
+                if a != want {
+                    rep.violation(PID, "concurrent-first-use:valid".into(), format!("thread {} of 16 making the first unarmor calls of the process together: 64 valid characters gave {:?}", ti, a.as_ref().map(|v| crate::json::hex_str(v))), || mon::replay_unarmor(&valid, 0, "first calls of the process, 16 threads released together"));
+                }
+                if b {
+                    rep.violation(PID, "concurrent-first-use:invalid-accepted".into(), format!("thread {} of 16 making the first unarmor calls of the process together: a string with '~' was unarmored to a value", ti), || mon::replay_unarmor(&invalid, 0, "first calls of the process, 16 threads released together"));
+                }
+            }
+            _ => rep.violation(PID, "concurrent-first-use:panic".into(), format!("thread {} of 16 making the first unarmor calls of the process together panicked", ti), || mon::replay_unarmor(&valid, 0, "first calls of the process, 16 threads released together")),
+        }
+    }
+    rep.count("concurrent_first_use_threads");
+    rep.class("concurrent-first-use|16-threads".into());
+}
+
 pub fn run(ctx: &Ctx, rep: &mut Report) {
+    concurrent_first_use(rep);
     let mut r = ctx.rng("c03");
     let mut idx: u64 = 0;
     // exhaustive: every byte string of length 0..=2, every fill
